@@ -25,7 +25,7 @@ Holds(a, M) ==
 CtorKinds == {"Dense", "Triangular", "Sparse", "Jacobian", "Hessian", "Diagonal", "Tridiagonal", "Identity",
               "ScalarMul", "Permutation", "Householder", "Kernel", "FFT", "Product", "Sum", "Kronecker", "KronSum",
               "BlockDiag", "Transpose", "Adjoint", "Sliced", "Concatenated", "NoDispatch", "Annot",
-              "GramT", "GramH", "GramHr", "SelfProd"}
+              "GramT", "GramH", "GramHr", "SelfProd", "GramWinH", "GramWinT"}
 RECURSIVE CtorOnly(_)
 CtorOnly(t) == t.k \in CtorKinds /\ \A i \in 1..Len(t.a): CtorOnly(t.a[i])
 
@@ -47,6 +47,8 @@ Infer(t) ==
       \* the pattern when it stands on the right)
       \* Product(x, x): the generic rule for a number of non-scalar factors other than one
       [] t.k = "SelfProd" -> Ch(1) \cap {"Unitary", "Stiefel"}
+      \* two different windows of one object: two Sliced factors with unequal selectors carry no annotation
+      [] t.k \in {"GramWinH", "GramWinT"} -> {}
       [] t.k = "GramHr" -> (Ch(1) \cap {"Unitary"}) \cup {"PSD"}
       [] t.k = "GramH" ->
             IF t.a[1].k \in {"Adjoint", "Transpose"} THEN Ch(1) \cap {"Unitary"}
